@@ -90,6 +90,11 @@ type Chain struct {
 	TxLog []BlockRecord
 	// KeepLog controls whether TxLog is filled.
 	KeepLog bool
+	// Mirror, when set, receives every message delivered to this chain too (signed with the mirror's
+	// own account sequence, in a block with the same block time); MirrorRes is the mirror's result of
+	// the last delivery. Used to compare a chain with its re-imported copy (C16).
+	Mirror    *Chain
+	MirrorRes *abci.ExecTxResult
 }
 
 type BlockRecord struct {
@@ -256,8 +261,11 @@ func (c *Chain) initChain() {
 
 // finalize runs one block with the given txs at the world's current time.
 func (c *Chain) finalize(txs [][]byte) *abci.ResponseFinalizeBlock {
+	return c.finalizeAt(txs, c.W.Tick())
+}
+
+func (c *Chain) finalizeAt(txs [][]byte, t time.Time) *abci.ResponseFinalizeBlock {
 	h := c.Height + 1
-	t := c.W.Tick()
 	before := c.App.LastCommitID().Hash
 	res, err := c.App.FinalizeBlock(&abci.RequestFinalizeBlock{
 		Height:             h,
@@ -296,6 +304,9 @@ func EncodeResult(r *abci.ExecTxResult) []byte {
 func (c *Chain) CommitEmpty(n int) {
 	for i := 0; i < n; i++ {
 		c.finalize(nil)
+		if c.Mirror != nil {
+			c.Mirror.finalizeAt(nil, c.blocks[c.Height].Time)
+		}
 	}
 }
 
@@ -383,8 +394,30 @@ func (c *Chain) Deliver(acc *Account, msgs ...sdk.Msg) (res *abci.ExecTxResult) 
 	if res != nil {
 		return res
 	}
-	return c.DeliverRaw(txBz)
+	res = c.DeliverRaw(txBz)
+	if c.Mirror != nil {
+		c.MirrorRes = c.Mirror.deliverAt(acc, c.blocks[c.Height].Time, msgs...)
+	}
+	return res
 }
+
+// deliverAt delivers msgs in a block with the given time (mirror chains).
+func (c *Chain) deliverAt(acc *Account, t time.Time, msgs ...sdk.Msg) (res *abci.ExecTxResult) {
+	defer func() {
+		if r := recover(); r != nil {
+			res = &abci.ExecTxResult{Code: 0xFFFF, Log: fmt.Sprintf("tx build panic: %v", r)}
+		}
+	}()
+	txBz, err := c.BuildTx(acc, msgs...)
+	if err != nil {
+		return &abci.ExecTxResult{Code: 0xFFFF, Log: "tx build error: " + err.Error()}
+	}
+	r := c.finalizeAt([][]byte{txBz}, t)
+	return r.TxResults[0]
+}
+
+// CommitEmptyAt commits one empty block with the given time.
+func (c *Chain) CommitEmptyAt(t time.Time) { c.finalizeAt(nil, t) }
 
 // DeliverRaw delivers pre-built tx bytes in their own block.
 func (c *Chain) DeliverRaw(txBz []byte) *abci.ExecTxResult {
